@@ -374,7 +374,7 @@ class ELsb0(Engine):
             return (x.rol if left else x.ror)(int(g('n', 0)), g('start'), g('end'))
         if op in ('insert', 'overwrite'):
             b = self._bs(R, ev, 'bs', mirror)
-            if g('pos') is None and hasattr(x, '_pos'):
+            if g('pos') is None and kernel.is_stream(x):
                 return getattr(x, op)(b)
             return getattr(x, op)(b, int(g('pos') or 0))
         if op in ('append', 'prepend'):
@@ -537,9 +537,9 @@ class ELsb0(Engine):
             if not bad:
                 incs.append(self.inc(f'{op}|{mode}|{trig}|content-mismatch', event=ev, before=before_l[:120], lsb0_after=al[:120], mirror_after=(rev(am) if mirror else am)[:120]))
             bad = True
-        if cls in STREAM and getattr(xl, '_pos', 0) != getattr(xm, '_pos', 0):
+        if cls in STREAM and (kernel.get_pos(xl) if kernel.is_stream(xl) else 0) != (kernel.get_pos(xm) if kernel.is_stream(xm) else 0):
             if not bad:
-                incs.append(self.inc(f'{op}|{mode}|{trig}|pos-mismatch', event=ev, content=before_l[:120], lsb0_pos=xl._pos, mirror_pos=xm._pos))
+                incs.append(self.inc(f'{op}|{mode}|{trig}|pos-mismatch', event=ev, content=before_l[:120], lsb0_pos=kernel.get_pos(xl), mirror_pos=kernel.get_pos(xm)))
             bad = True
         if bad:
             # resynchronise the oracle side from the subject
@@ -551,12 +551,13 @@ class ELsb0(Engine):
     def _rebuild(self, i):
         cls, xl, xm = self.ents[i]
         bits = safe_bin(xl)
-        pos = getattr(xl, '_pos', None)
+        pos = (kernel.get_pos(xl) if kernel.is_stream(xl) else None)
         if pos is not None and not 0 <= pos <= len(bits):
-            xl._pos = pos = 0
+            pos = 0
+            kernel.set_pos(xl, pos)
         xm = getattr(self.M.pkg, cls)(bin=rev(bits) if self.lsb0 else bits)
         if pos is not None:
-            xm._pos = pos
+            kernel.set_pos(xm, pos)
         self.ents[i][2] = xm
 
     def _toggle(self, ev):
